@@ -26,9 +26,13 @@ theorem fifo_client {s : St} (inv : Inv s) (gf : GF s.sh) (lf : ∀ u, LF s.sh u
   · -- pLinked
     simp only [step] at h'
     split at h'
-    · simp at h'; obtain ⟨rfl, rfl⟩ := h'
-      exact free_step inv gf lf h rfl (Or.inl rfl) f1 rfl (by simp) (by rw [e]; rfl) (fun u hm => hm)
-        (by intro hc; obtain ⟨id, h1, _⟩ := lt.c hc; simp [waitId, waitId0] at h1) (by rw [e]; exact Or.inl rfl)
+    · split at h'
+      · simp at h'; obtain ⟨rfl, rfl⟩ := h'
+        exact free_step inv gf lf h rfl (Or.inl rfl) f1 rfl (by simp) (by rw [e]; rfl) (fun u hm => hm)
+          (by intro hc; obtain ⟨id, h1, _⟩ := lt.c hc; simp [waitId, waitId0] at h1) (by rw [e]; exact Or.inl rfl)
+      · simp at h'; obtain ⟨rfl, rfl⟩ := h'
+        exact free_step inv gf lf h rfl (Or.inl rfl) f1 rfl (by simp) (by rw [e]; rfl) (fun u hm => hm)
+          (by intro hc; obtain ⟨id, h1, _⟩ := lt.c hc; simp [waitId, waitId0] at h1) (by rw [e]; exact Or.inl rfl)
     · split at h'
       · simp at h'; obtain ⟨rfl, rfl⟩ := h'
         exact free_step inv gf lf h rfl (Or.inl rfl) f1 rfl (by simp) (by rw [e]; rfl) (fun u hm => hm)
